@@ -691,6 +691,34 @@ impl<'a, RK: RadioKind> Exec<'a, RK> {
                 );
             }
         }
+        // a single-shot or duty-cycle reception whose chip-side operation HAS ENDED in this call (RxDone / timeout
+        // raised, chip back in standby) and which then fails on a transport fault while the driver reads the
+        // outcome: the operation has failed, the chip is in standby, and the driver must know that the reception is
+        // over (if it went on believing that a receiver is armed, a later start_rx / rx_switch_channel would be
+        // accepted and command the chip). Faults that hit before the chip's operation ended are not judged
+        // (section 15: the driver keeps its armed mode when the start of an operation fails on the bus).
+        // Not judged either: a fault that hits the recovery action itself (the wake-up or the standby command of
+        // the error path - the driver cannot claim a standby it could not command).
+        let recovery_cmd = match log.fault_cmd {
+            None => true, // not an SPI fault
+            Some(op) => {
+                if self.is_126x {
+                    op == 0x80 || op == 0xC0
+                } else {
+                    op == 0x81
+                }
+            }
+        };
+        if rx_op && matches!(hm0, M::RxSingle | M::RxDuty) && waits.terminal_seen && log.fault_fired && !recovery_cmd && !dropped && matches!(res, Res::Err(_)) {
+            self.stats.bump("probe.reception-ended-then-transport-fault");
+            if hm1 == hm0 {
+                self.violate(
+                    "C14.not-standby-after-failure",
+                    format!("transport-after-chip-ended|{fam}|{}|driver={:?}", step.op.name(), hm1),
+                    format!("{}() failed with {:?} on an injected transport fault after the chip had ended the reception; afterwards the driver still believes {:?}", step.op.name(), res, hm1),
+                );
+            }
+        }
         // the same when the only disturbance of the whole run is an SPI fault inside this very call: a lost bus
         // transaction must make the call fail, not leave it waiting for the BUSY line of a chip that never woke up
         let only_this_spi_fault = faults_before == 0 && log.fault_fired && matches!(step.fault, Some(f) if f.kind == FaultKind::Spi);
